@@ -66,7 +66,8 @@ fn to_py(core: &Core, ind: usize) -> String {
         ),
         Core::Id { lit } => lit.clone(),
         Core::Type { lit, generics } => {
-            if generics.is_empty() {
+            // The nameless type is the argument list of a Callable: [] if there are no arguments
+            if generics.is_empty() && !lit.is_empty() {
                 lit.clone()
             } else {
                 format!("{}[{}]", lit, comma_delimited(generics, ind))
